@@ -51,6 +51,8 @@ ENTRIES = {
     "sub/init": ("p/sub/__init__.py", "z = 1\n"), "sub/n": ("p/sub/n.py", "w = 1\n"), "ns/k": ("p/ns/k.py", "v = 1\n"), "pycache": ("p/__pycache__/m.cpython-312.pyc", ""),
     "data": ("p/data.txt", "hello\n"), "dotted": ("p/a.b.py", "u = 1\n"), "pkgutil-ns": ("p/__init__.py", "__path__ = __import__('pkgutil').extend_path(__path__, __name__)\n"),
     "pkgutil-ns-2line": ("p/__init__.py", "from pkgutil import extend_path\n__path__ = extend_path(__path__, __name__)\n"),
+    # a regular package two levels down, below a namespace sub-package, with a stub for its __init__
+    "ns/pk/init": ("p/ns/pk/__init__.py", "t = 1\n"), "ns/pk/init.pyi": ("p/ns/pk/__init__.pyi", "t: int\n"), "ns/pk/mod": ("p/ns/pk/mod.py", "s = 1\n"),
 }
 NAMES = list(ENTRIES)
 # (max entries, permuted directories per schedule); passes are run one after the other
@@ -193,8 +195,8 @@ def features(layout):
     for n, pl in layout:
         by_path[pl].add(n)
     f = []
-    if any("init.pyi" in s and "init" not in s for s in by_path.values()):
-        f.append("stub-only-package-dir")
+    if any(("init.pyi" in s and "init" not in s) or ("ns/pk/init.pyi" in s and "ns/pk/init" not in s) for s in by_path.values()):
+        f.append("stub-only-package-dir")  # (at the top, or two levels down)
     tops = [pl for pl in (1, 2) if any(ENTRIES[n][0].startswith("p/") for n in by_path[pl])]
     if len(tops) == 2:
         f.append("two-portions")
@@ -204,6 +206,8 @@ def features(layout):
         f.append("extension-module")
     if any(n == "sub/n" for n, pl in layout) and not any(n == "sub/init" and pl2 == pl for (n, pl2) in layout for pl in [pl2] if any(m == "sub/n" and q == pl2 for m, q in layout)):
         f.append("initless-sub")
+    elif any(n == "ns/pk/mod" and not any(m == "ns/pk/init" and q == pl for m, q in layout) for n, pl in layout):
+        f.append("initless-sub")  # the same one level down: p/ns/pk/ holds a module but no __init__.py on that search path
     return "+".join(f) or "plain"
 
 
@@ -294,6 +298,9 @@ def run_layout(griffe, acc, layout):
                         kind = "namespace-subpackage-inside-regular-package" if not parent["namespace"] else "namespace-subpackage"
                     elif "." in name and parent["namespace"] and "." in name.rsplit(".", 1)[0]:
                         kind = "module-under-nested-namespace"
+                    elif any(ref.get(".".join(name.split(".")[:i]), {}).get("namespace") and ".".join(name.split(".")[:i]) not in tree for i in range(2, name.count(".") + 1)):
+                        # further down below a nested namespace directory that is not loaded (same decision, deeper)
+                        kind = "package-under-nested-namespace" if r["is_pkg"] else "module-under-nested-namespace"
                     else:
                         kind = "package" if r["is_pkg"] else "module"
                     acc.violation(f"missing/{kind}" + tag(f"missing/{kind}", feat), f"CPython finds {name} at {_rel(r['origin'], d) if r['origin'] else 'namespace'} but Griffe did not load it", cd, {"tree": sorted(tree)}, size=size)
